@@ -70,6 +70,14 @@ def compare_listing(ctx, prop, check, form, listed, specs, wit):
 
 
 def run_case(case, ctx):
+    m0 = ctx.monitors.get("M7.tape-post", 0)
+    v0 = sum(v["count"] for v in ctx.violations.values() if v["record"]["property"] == ctx.prop)
+    _run_case(case, ctx)
+    if ctx.prop == "C14" and ctx.monitors.get("M7.tape-post", 0) > m0 and sum(v["count"] for v in ctx.violations.values() if v["record"]["property"] == "C14") == v0:
+        ctx.nontriv(("wellformed", case["id"]))
+
+
+def _run_case(case, ctx):
     from cocoasm.virtualfiles.cassette import CassetteFile
     from cocoasm.virtualfiles.virtual_file_exceptions import VirtualFileValidationError
     specs = case["files"]
@@ -105,7 +113,8 @@ def run_case(case, ctx):
     ok = compare_listing(ctx, "C06", "tape-roundtrip", form, listed, specs, wit)
     ctx.outcome("ok" if ok else "mismatch")
     if ok:
-        ctx.nontriv(case["id"])
+        if ctx.prop != "C14":
+            ctx.nontriv(case["id"])
         for s in specs:
             L = len(s["data"]) // 2
             ctx.cell("%s/len-%s" % (form, L if L in G.TAPE_LEN else ("multi-block" if L > 255 else "other")))
